@@ -163,10 +163,7 @@ class Layout:
         if letter_spacing == 'normal':
             letter_spacing = 0
 
-        word_breaking = break_words or (
-            self.style['overflow_wrap'] in ('anywhere', 'break-word'))
-
-        if self.text and (word_spacing or letter_spacing or word_breaking):
+        if self.text and (word_spacing or letter_spacing or break_words):
             attr_list = pango.pango_layout_get_attributes(self.layout)
             if attr_list == ffi.NULL:
                 attr_list = ffi.gc(
@@ -196,7 +193,7 @@ class Layout:
                     factor = 1 + (match.start() in boundary_positions)
                     add_attr(match.start(), match.end(), factor * space_spacing)
 
-            if word_breaking:
+            if break_words:
                 attr = pango.pango_attr_insert_hyphens_new(False)
                 attr.start_index, attr.end_index = 0, len(bytestring)
                 pango.pango_attr_list_change(attr_list, attr)
